@@ -658,3 +658,18 @@ M("m128", "C13", "R13.5", HENDRIX, "            pu[0, y] = scipy.stats.poisson.p
   "Binomial(0; x, p) written as exp(x * log1p(-p)): NaN at the accepted p = 1 with x = 0 (positive example of the zero-count rule)")
 B("b47", ["C17"], PROBLEM, "        max_deviation = jnp.max(jnp.abs(row_sums - 1.0))\n        if max_deviation > normalization_tolerance:",
   "        max_deviation = jnp.max(jnp.abs(row_sums - 1.0))\n        if jnp.any(jnp.abs(row_sums - 1.0) > normalization_tolerance):", "row-sum test written with any() of the element-wise comparison")
+M2("m129", "C09", "R9.3", [
+   (VI, "        for _ in range(max_iterations):\n            self.iteration += 1\n            new_values, conv = self._iteration_step()\n            self.values = new_values\n\n            logger.info(\n                f\"Iteration {self.iteration}: {self._convergence_desc}",
+        "        step = self.iteration\n        for _ in range(max_iterations):\n            self.iteration += 1\n            new_values, conv = self._iteration_step()\n            self.values = new_values\n\n            logger.info(\n                f\"Iteration {self.iteration}: {self._convergence_desc}", None),
+   (VI, "                and self.iteration % self.checkpoint_frequency == 0\n            ):\n                self.save(self.iteration)", "                and self.iteration % self.checkpoint_frequency == 0\n            ):\n                self.save(step)", None)],
+   "the counter is read once before the loop and the stale copy labels every periodic checkpoint (the cached attribute IS written by the loop: it must not be de-aliased)")
+M2("m130", "C08", ["R8.5", "R8.6", "R8.2"], [
+   (PI, "        for eval_iter in range(self.config.max_eval_iter):\n            # Calculate new values using only the policy's actions\n            new_values = self._calculate_policy_values(policy, values)",
+        "        start = values\n        for eval_iter in range(self.config.max_eval_iter):\n            # Calculate new values using only the policy's actions\n            new_values = self._calculate_policy_values(policy, start)", None)],
+   "evaluation kernel always applied to the stale starting values (no chaining)")
+B2("b48", ["C12", "C09", "C08"], [
+   (VI, "        for _ in range(max_iterations):\n            self.iteration += 1\n            new_values, conv = self._iteration_step()\n            self.values = new_values\n\n            logger.info(\n                f\"Iteration {self.iteration}: {self._convergence_desc}",
+        "        every = self.checkpoint_frequency\n        threshold = self.conv_threshold\n        for _ in range(max_iterations):\n            self.iteration += 1\n            new_values, conv = self._iteration_step()\n            self.values = new_values\n\n            logger.info(\n                f\"Iteration {self.iteration}: {self._convergence_desc}", None),
+   (VI, "                and self.iteration % self.checkpoint_frequency == 0\n            ):\n                self.save(self.iteration)", "                and self.iteration % every == 0\n            ):\n                self.save(self.iteration)", None),
+   (VI, "            if conv < self.conv_threshold:\n                logger.info(\n                    f\"Convergence threshold reached at iteration {self.iteration}\"", "            if conv < threshold:\n                logger.info(\n                    f\"Convergence threshold reached at iteration {self.iteration}\"", None)],
+   "loop invariants (frequency, threshold) read once before the loop")
